@@ -115,8 +115,11 @@ def collect_reads_in_parallel(sample, chr_id, args):
         logger.info("Detected processed reads for " + chr_id)
         if os.path.exists(group_file) and os.path.exists(save_file):
             read_grouper.read_groups.clear()
-            for g in open(group_file):
-                read_grouper.read_groups.add(g.strip())
+            # one group per line, verbatim: a group name may be empty or begin / end with blanks (BAM tag values,
+            # table entries, file labels); only the line terminator written by the dump below is removed
+            with open(group_file, newline='\n') as group_dump:
+                for g in group_dump:
+                    read_grouper.read_groups.add(g[:-1] if g.endswith("\n") else g)
             alignment_stat_counter = EnumStats(bamstat_file)
             loader = BasicReadAssignmentLoader(save_file)
             while loader.has_next():
@@ -143,7 +146,7 @@ def collect_reads_in_parallel(sample, chr_id, args):
         for read_assignment in assignment_storage:
             tmp_printer.add_read_info(read_assignment)
             processed_reads.append(collect_assignment_info(read_assignment))
-    with open(group_file, "w") as group_dump:
+    with open(group_file, "w", newline='\n') as group_dump:
         for g in read_grouper.read_groups:
             group_dump.write("%s\n" % g)
     alignment_collector.alignment_stat_counter.dump(bamstat_file)
